@@ -104,8 +104,21 @@ def register():
 
 
 def tree(v):
-    """Class-exact comparable form of a decoded value."""
-    return vc.to_json(v)
+    """Class-exact comparable form of a decoded value; the order of the items of a dict does not matter
+    (Python dict equality ignores it)."""
+    return _unorder(vc.to_json(v))
+
+
+def _unorder(t):
+    import json
+    if isinstance(t, dict):
+        if 'dict' in t:
+            items = [[_unorder(k), _unorder(x)] for k, x in t['dict']]
+            return {'dict': sorted(items, key=lambda kv: json.dumps(kv[0], sort_keys=True))}
+        return {k: _unorder(x) for k, x in t.items()}
+    if isinstance(t, list):
+        return [_unorder(x) for x in t]
+    return t
 
 
 # ------------------------------------------------------------------------------------------ oracle
